@@ -75,6 +75,7 @@ type FuncVC struct {
 	errs         []string
 	topFrame     *Frame
 	forceWrap    bool
+	sweepRecv    bool
 	usesLocks    bool
 	lockOnly     bool
 	guardVals    map[ssa.Value]guardInfo
@@ -110,15 +111,15 @@ type loopInfo struct {
 	backs []*ssa.BasicBlock
 	spec  *LoopSpec
 	// head snapshot
-	headState *State
-	headPhis  map[*ssa.Phi]string
-	measure   string
-	isRange   *ssa.Phi // rangeindex phi if any
-	pending   []*pendingObl
-	seenBacks int
+	headState  *State
+	headPhis   map[*ssa.Phi]string
+	measure    string
+	isRange    *ssa.Phi // rangeindex phi if any
+	pending    []*pendingObl
+	seenBacks  int
 	entryState *State
-	frameKeys []string
-	frameCond map[string]string
+	frameKeys  []string
+	frameCond  map[string]string
 }
 
 type pendingObl struct {
